@@ -372,6 +372,14 @@ pub fn reclaim_verdicts(before: &SimFs, after: &SimFs, trace: &[Rec], roots: &[D
                 continue;
             }
             if !trace.iter().any(|r| r.kind == K::Opendir && r.path == td && r.err == 0) {
+                // "removed by later maintenance of that directory": a pass that
+                // listed the cache directory itself must also have gone through
+                // its temporary directory
+                let cache_dir = td.trim_end_matches("/.kismet_temp").to_string();
+                let maintained = trace.iter().any(|r| r.lib && r.kind == K::Opendir && r.path == cache_dir && r.err == 0);
+                if maintained && before.now - st.mtime > HOUR && !trace.iter().any(|r| r.kind == K::Opendir && r.path == td) {
+                    out.push(("temp-not-cleaned", format!("{} was maintained (listed) but its temporary directory was never opened; {} is {} ns old", cache_dir, p, before.now - st.mtime)));
+                }
                 continue;
             }
             // robust to where the implementation reads the clock: a file may be
